@@ -156,4 +156,22 @@ def runHist : P Verdict := do
     check w "two setter histories ending in the same values synthesize differently" ]
   pure { corr := none, oracle := orc, nontriv := true, cls := s!"hist:{kind}" }
 
+/-- `shist <name> <before> <after> <history>`: emitted by the harness only when a sequence of setter / loader calls that
+    must leave setting `name` alone (each call of the sequence sets another setting, or sets and restores it) changed what
+    the getter returns. Every engine-path property is stated in terms of the values the caller set, so this is a failure
+    of the property whose check drew the history. -/
+def runSetterHist : P Verdict := do
+  let name ← next
+  let b ← next; let a ← next
+  let h ← next
+  pure { corr := none,
+         oracle := some s!"setter history: '{name}' was {b} and reads {a} after calls that do not concern it: {h}",
+         nontriv := true, cls := s!"shist:{name}" }
+
+/-- `shistok <n> <tag>`: `n` setter / loader histories left every setting they do not concern alone -/
+def runSetterHistOk : P Verdict := do
+  let n ← nat
+  let tag ← next
+  pure { corr := none, oracle := none, nontriv := n > 0, cls := s!"setter-histories:{tag}" }
+
 end Drv.Det
